@@ -121,7 +121,9 @@ def config(tier, seed):
             pairs = [tuple(sorted(int(x) for x in p.split("-"))) for p in spec[0].split(",")]
             pools = spec[1] if len(spec) > 1 else "{0,1,2}"
         return dict(runs=[dict(Pools="{0,1,2}", MaxAct=1, LateBegin=True, pairs=[], Dialing=True),
-                          dict(Pools=pools, MaxAct=2, LateBegin=False, pairs=pairs)],
+                          dict(Pools=pools, MaxAct=2, LateBegin=False, pairs=pairs),
+                          # a block subscription registered while mid-sync (cfHandler announcing blocks)
+                          dict(Pools="{2}", Kinds="{6,7}", MaxAct=2, LateBegin=False, pairs=[(6, 7)])],
                     live=dict(Pools="{0,1,2}", MaxAct=1, LateBegin=True, pairs=ap),
                     moments=[0, 1], per_key=2, bound=BOUND)
     nosync = [p for p in ap if 7 not in p]
@@ -135,7 +137,7 @@ def config(tier, seed):
 
 
 def consts_of(run):
-    c = dict(Pools=run["Pools"], Kinds="{1,2,3,4,5,6,7}", MaxAct=run["MaxAct"],
+    c = dict(Pools=run["Pools"], Kinds=run.get("Kinds", "{1,2,3,4,5,6,7}"), MaxAct=run["MaxAct"],
              Pairs=pairs_literal(run["pairs"]) if run["pairs"] else "{}",
              LateBegin=run["LateBegin"], Dialing=bool(run.get("Dialing")))
     c.update(CODE_VERSION)
@@ -315,7 +317,7 @@ def norm_stop(s):
 STABLE = {"bm": {"cond", "getblk", "getcf", "cflock", "exited"},
           "disp": {"run", "exited"},
           "bch": {"sel", "bcast", "cancelsub", "exited"},
-          "subh": {"sel", "exited"},
+          "subh": {"sel", "nsh", "exited"},
           "blkh": {"sel", "ntfn", "exited"},
           "cfh": {"first", "cond", "qall", "cpq", "getblk", "retry", "ntfn", "exited"},
           "rs": {"mark", "flock", "filter", "block", "cur"},
